@@ -41,6 +41,12 @@ fn fix_ident_conflicts(sig: &mut syn::Signature) -> ParamStatus {
             syn::FnArg::Receiver(_) => ParamStatus::Ok,
             syn::FnArg::Typed(pat_type) => match pat_type.pat.as_mut() {
                 syn::Pat::Ident(param_ident) => {
+                    // Binding modes and sub-patterns belong to the original fn,
+                    // the trait method only forwards the value:
+                    param_ident.by_ref = None;
+                    param_ident.mutability = None;
+                    param_ident.subpat = None;
+
                     if param_ident.ident == fn_ident_string {
                         // format_ident! copes with raw identifiers (`r#match` -> `match_`)
                         param_ident.ident = quote::format_ident!(
